@@ -188,9 +188,12 @@ def check_seq(seq, obs, main_options_everywhere=False, pad=None,
         obs.count('tolerance:dont_care_transition_accepted')
     if exc is not None:
         obs.count('rejected_at_oracle_index')
-        if exc.linenum != lines[got_k]:
-            obs.violation('error_line_not_offending_header', case,
-                          {'linenum': exc.linenum, 'want': lines[got_k]})
+        if not (0 <= exc.linenum <= n):
+            obs.violation('error_line_outside_input', case,
+                          {'linenum': exc.linenum, 'lines': n})
+        elif exc.linenum != lines[got_k]:
+            # C10 does not say which line a rejected order is reported on
+            obs.count('error_line_not_offending_header(diagnostic)')
         want = 'Error on line %d' % (exc.linenum + 1)
         if not str(exc).startswith(want):
             obs.violation('error_message_line_mismatch', case, str(exc))
